@@ -11,16 +11,17 @@ import (
 	"golang.org/x/tools/go/ssa"
 )
 
-// symWalker evaluates integer expressions along one CFG path with store-to-load
-// forwarding for local cells and struct fields (keyed by access path).
+// symWalker evaluates integer expressions along one unit path with store-to-load
+// forwarding for local cells and struct fields (keyed by access path; helper parameters
+// are resolved to the caller's arguments).
 type symWalker struct {
 	mem  map[string]linForm
 	memo map[ssa.Value]linForm
-	phi  func(*ssa.Phi) ssa.Value
+	path *upath
 }
 
-func newSymWalker(path cfgPath) *symWalker {
-	return &symWalker{mem: map[string]linForm{}, memo: map[ssa.Value]linForm{}, phi: pathPhi(path)}
+func newSymWalker(path *upath) *symWalker {
+	return &symWalker{mem: map[string]linForm{}, memo: map[ssa.Value]linForm{}, path: path}
 }
 
 func isIntegerType(t types.Type) bool {
@@ -28,10 +29,49 @@ func isIntegerType(t types.Type) bool {
 	return ok && b.Info()&(types.IsInteger|types.IsBoolean) != 0
 }
 
+// apath is accessPath with helper parameters replaced by the caller's arguments.
+func (w *symWalker) apath(v ssa.Value) string {
+	switch x := v.(type) {
+	case *ssa.Parameter:
+		if a, ok := w.path.Arg[x]; ok {
+			return w.apath(a)
+		}
+		return x.Name()
+	case *ssa.FieldAddr:
+		st := structOf(x.X.Type())
+		if st == nil {
+			return w.apath(x.X) + ".?"
+		}
+		return w.apath(x.X) + "." + st.Field(x.Field).Name()
+	case *ssa.Field:
+		st := structOf(x.X.Type())
+		if st == nil {
+			return w.apath(x.X) + ".?"
+		}
+		return w.apath(x.X) + "." + st.Field(x.Field).Name()
+	case *ssa.UnOp:
+		if x.Op == token.MUL {
+			return w.apath(x.X)
+		}
+	case *ssa.MakeInterface:
+		return w.apath(x.X)
+	case *ssa.ChangeType:
+		return w.apath(x.X)
+	}
+	return accessPath(v)
+}
+
 func (w *symWalker) lin(v ssa.Value) linForm {
-	return linOfX(v, w.sym, w.phi, func(x ssa.Value) (linForm, bool) {
-		f, ok := w.memo[x]
-		return f, ok
+	return linOfX(v, w.sym, w.path.phi, func(x ssa.Value) (linForm, bool) {
+		if f, ok := w.memo[x]; ok {
+			return f, true
+		}
+		if p, ok := x.(*ssa.Parameter); ok {
+			if a, ok := w.path.Arg[p]; ok {
+				return w.lin(a), true
+			}
+		}
+		return linForm{}, false
 	})
 }
 
@@ -41,8 +81,23 @@ func (w *symWalker) sym(v ssa.Value) (string, bool) {
 		if x.Op == token.MUL {
 			switch x.X.(type) {
 			case *ssa.Alloc, *ssa.FreeVar, *ssa.FieldAddr:
-				return accessPath(x.X), true
+				return w.apath(x.X), true
 			}
+		}
+	case *ssa.Call:
+		if b, ok := x.Call.Value.(*ssa.Builtin); ok && (b.Name() == "len" || b.Name() == "cap") {
+			return b.Name() + "(" + w.apath(x.Call.Args[0]) + ")", true
+		}
+		if sc := x.Call.StaticCallee(); sc != nil {
+			var as []string
+			for _, a := range x.Call.Args {
+				if isIntegerType(a.Type()) {
+					as = append(as, w.lin(a).String())
+				} else {
+					as = append(as, w.apath(a))
+				}
+			}
+			return sc.Name() + "(" + strings.Join(as, ",") + ")", true
 		}
 	}
 	return defaultSym(v)
@@ -52,43 +107,63 @@ func (w *symWalker) step(in ssa.Instruction) {
 	switch x := in.(type) {
 	case *ssa.Store:
 		if isIntegerType(x.Val.Type()) {
-			w.mem[accessPath(x.Addr)] = w.lin(x.Val)
+			w.mem[w.apath(x.Addr)] = w.lin(x.Val)
 		}
 	case *ssa.UnOp:
 		if x.Op == token.MUL && isIntegerType(x.Type()) {
-			if f, ok := w.mem[accessPath(x.X)]; ok {
+			if f, ok := w.mem[w.apath(x.X)]; ok {
 				w.memo[x] = f
 			} else {
-				w.memo[x] = linSym(accessPath(x.X))
+				w.memo[x] = linSym(w.apath(x.X))
 			}
+		}
+	case *ssa.Extract:
+		if rs, ok := w.path.RetAll[x.Tuple]; ok && x.Index < len(rs) && isIntegerType(x.Type()) {
+			w.memo[x] = w.lin(rs[x.Index])
 		}
 	}
 }
 
-// walkPath runs the walker over the path and returns, for every branch taken, its atom.
+// after a helper returned on the path, its call instruction denotes the returned value
+func (w *symWalker) bindReturn(call ssa.Value) {
+	if r, ok := w.path.Ret[call]; ok && isIntegerType(call.Type()) {
+		w.memo[call] = w.lin(r)
+	}
+}
+
+// pathFacts: the literals established by the branches of a unit path.
 type pathFacts struct {
 	lits   []lit
 	conds  []fact
 	w      *symWalker
 	instrs []ssa.Instruction
+	path   *upath
 }
 
-func evalPath(path cfgPath) *pathFacts {
-	w := newSymWalker(path)
-	pf := &pathFacts{w: w}
+func evalPath(path upath) *pathFacts {
+	pp := &path
+	w := newSymWalker(pp)
+	pf := &pathFacts{w: w, path: pp}
 	ci := 0
-	for _, b := range path.Blocks {
-		for _, in := range b.Instrs {
-			w.step(in)
-			pf.instrs = append(pf.instrs, in)
+	var stack []ssa.Value
+	for idx, in := range path.Instrs {
+		w.step(in)
+		pf.instrs = append(pf.instrs, in)
+		if h := helperCallee(in); h != nil && idx+1 < len(path.Instrs) && path.Instrs[idx+1].Parent() == h {
+			stack = append(stack, in.(*ssa.Call))
 		}
-		if iff, ok := b.Instrs[len(b.Instrs)-1].(*ssa.If); ok && ci < len(path.Conds) {
+		if _, isRet := in.(*ssa.Return); isRet && len(stack) > 0 && idx+1 < len(path.Instrs) {
+			call := stack[len(stack)-1]
+			stack = stack[:len(stack)-1]
+			w.bindReturn(call)
+		}
+		if _, ok := in.(*ssa.If); ok && ci < len(path.Conds) {
 			c := path.Conds[ci]
 			ci++
-			_ = iff
-			cm, ok := normCmp(c.Cond, c.Val)
+			cond := pp.resolve(c.Cond)
+			cm, ok := normCmp(cond, c.Val)
 			if !ok {
-				pf.conds = append(pf.conds, c)
+				pf.conds = append(pf.conds, fact{Cond: cond, Val: c.Val, If: c.If})
 				continue
 			}
 			x, y := w.lin(cm.X), w.lin(cm.Y)
@@ -106,7 +181,7 @@ func evalPath(path cfgPath) *pathFacts {
 				pol = false
 			}
 			pf.lits = append(pf.lits, lit{a, pol})
-			pf.conds = append(pf.conds, c)
+			pf.conds = append(pf.conds, fact{Cond: cond, Val: c.Val, If: c.If})
 		}
 	}
 	return pf
@@ -149,6 +224,77 @@ type rdRoles struct {
 	check, accept    *ssa.Function
 	wrapped          bool
 	bit, setBit, lsh *ssa.Function
+	// field roles (resolved by type and by what the constructor stores, not by name)
+	latest, max, window, mask, init string
+	diff                            string // name of the folded-distance variable shared by Check and accept (wrapping detector)
+}
+
+// resolveDetFields finds the fields of a detector struct by role.
+func resolveDetFields(p *Prog, tn string, d *rdRoles) []string {
+	var probs []string
+	named := p.Named("replaydetector", tn)
+	if named == nil {
+		return []string{"type " + tn + " not found"}
+	}
+	st, _ := named.Underlying().(*types.Struct)
+	if st == nil {
+		return []string{tn + " is not a struct"}
+	}
+	// constructor: the exported function that allocates the type
+	var ctor *ssa.Function
+	for _, f := range p.Funcs {
+		if pkgOf(f) != "replaydetector" || f.Parent() != nil || f.Signature.Recv() != nil {
+			continue
+		}
+		instrsOf(f, func(in ssa.Instruction) {
+			if a, ok := in.(*ssa.Alloc); ok && typeName(a.Type()) == "replaydetector."+tn {
+				ctor = f
+			}
+		})
+	}
+	var u64 []string
+	for i := 0; i < st.NumFields(); i++ {
+		f := st.Field(i)
+		switch t := f.Type().Underlying().(type) {
+		case *types.Basic:
+			switch {
+			case t.Kind() == types.Bool:
+				d.init = f.Name()
+			case t.Kind() == types.Uint64:
+				u64 = append(u64, f.Name())
+			case t.Kind() == types.Uint:
+				d.window = f.Name()
+			}
+		case *types.Pointer:
+			if typeName(f.Type()) == "replaydetector.fixedBigInt" {
+				d.mask = f.Name()
+			}
+		}
+	}
+	if ctor != nil {
+		instrsOf(ctor, func(in ssa.Instruction) {
+			if s, ok := in.(*ssa.Store); ok {
+				if fr, ok := asFieldAddr(s.Addr); ok && fr.SName == "replaydetector."+tn {
+					if prm, ok := s.Val.(*ssa.Parameter); ok {
+						if b, ok := prm.Type().Underlying().(*types.Basic); ok && b.Kind() == types.Uint64 {
+							d.max = fr.Field
+						}
+					}
+				}
+			}
+		})
+	}
+	for _, n := range u64 {
+		if n != d.max {
+			d.latest = n
+		}
+	}
+	for k, v := range map[string]string{"newest accepted number": d.latest, "maximum": d.max, "window size": d.window, "mask": d.mask} {
+		if v == "" {
+			probs = append(probs, "field for the "+k+" of "+tn+" not resolved")
+		}
+	}
+	return probs
 }
 
 func unsignedCmp(c fact) (bool, bool) {
@@ -189,7 +335,28 @@ func replayRules(c *Ctx, which string) {
 			c.Obl("R0", "replaydetector."+tn, "anchors of the detector are resolved", 1).Undecide("%s.Check with exactly one accept closure not found", tn)
 			return
 		}
-		dets = append(dets, rdRoles{T: "replaydetector." + tn, check: ck, accept: ck.AnonFuncs[0], wrapped: strings.HasPrefix(tn, "wrapped"), bit: bitF, setBit: setF, lsh: lshF})
+		dr := rdRoles{T: "replaydetector." + tn, check: ck, accept: ck.AnonFuncs[0], wrapped: strings.HasPrefix(tn, "wrapped"), bit: bitF, setBit: setF, lsh: lshF}
+		if probs := resolveDetFields(p, tn, &dr); len(probs) > 0 {
+			o := c.Obl("R0", "replaydetector."+tn, "anchors of the detector are resolved", 1)
+			for _, pr := range probs {
+				o.Undecide("%s", pr)
+			}
+			return
+		}
+		if dr.wrapped {
+			for _, fv := range dr.accept.FreeVars {
+				if pt, ok := fv.Type().(*types.Pointer); ok {
+					if b, ok := pt.Elem().Underlying().(*types.Basic); ok && b.Kind() == types.Int64 {
+						dr.diff = fv.Name()
+					}
+				}
+			}
+			if dr.diff == "" || dr.init == "" {
+				c.Obl("R0", "replaydetector."+tn, "anchors of the detector are resolved", 1).Undecide("folded distance variable / init flag of the wrapping detector not resolved")
+				return
+			}
+		}
+		dets = append(dets, dr)
 	}
 
 	for _, d := range dets {
@@ -198,13 +365,13 @@ func replayRules(c *Ctx, which string) {
 			D = d.check.Params[0].Name()
 		}
 		seq := linSym(d.check.Params[1].Name())
-		L, M, W := linSym(D+".latestSeq"), linSym(D+".maxSeq"), linSym(D+".windowSize")
+		L, M, W := linSym(D+"."+d.latest), linSym(D+"."+d.max), linSym(D+"."+d.window)
 
 		if which == "C05" || which == "C04" {
 			// C05.R1 purity of Check
 			o := c.Obl("R1p", fname(d.check), "Check (outside the accept closure) writes no field of the detector: a check whose callback is never invoked has no effect on any later answer", 1)
 			o.Site(d.check.Pos(), "%s", fname(d.check))
-			instrsOf(d.check, func(in ssa.Instruction) {
+			for _, in := range findU(d.check, func(ssa.Instruction) bool { return true }) {
 				if st, ok := in.(*ssa.Store); ok {
 					if fr, ok := asFieldAddr(st.Addr); ok && !isFreshBase(fr.Base) {
 						o.Fail(in.Pos(), "Check writes %s.%s before the accept callback is invoked: a number that is checked but never accepted changes later answers", fr.SName, fr.Field)
@@ -215,24 +382,23 @@ func replayRules(c *Ctx, which string) {
 						o.Fail(in.Pos(), "Check modifies the bit mask")
 					}
 				}
-			})
+			}
 		}
 
 		// paths of Check
-		paths, ok := enumPaths(d.check, 300)
+		paths, ok := enumPathsU(d.check, 600)
 		oc := c.Obl("R2", fname(d.check), "every accepting path of Check has established: seq <= max; and either the number is newer than the newest accepted one, or it is fewer than window-size positions behind (unsigned / folded distance) and the bit at exactly that distance is clear; every refusing path refuses for one of these reasons", 4)
 		if !ok {
 			oc.Undecide("Check has a loop or too many paths")
 			continue
 		}
 		for _, pt := range paths {
-			last := pt.Blocks[len(pt.Blocks)-1]
-			ret, _ := last.Instrs[len(last.Instrs)-1].(*ssa.Return)
+			ret, _ := pt.Instrs[len(pt.Instrs)-1].(*ssa.Return)
 			if ret == nil {
 				continue
 			}
 			pf := evalPath(pt)
-			accepts := isConstBool(ret.Results[1], true)
+			accepts := isConstBool(retValAt(ret, 1)[0], true)
 			oc.Site(ret.Pos(), "ok=%v under %s", accepts, pf.litStr())
 			// signedness of comparisons in the plain detector
 			if !d.wrapped {
@@ -290,7 +456,7 @@ func replayRules(c *Ctx, which string) {
 			// wrapped detector: reconstruct the expected distance on this path
 			var diffCell linForm
 			for k, v := range pf.w.mem {
-				if k == "diff" {
+				if k == d.diff {
 					diffCell = v
 				}
 			}
@@ -305,8 +471,8 @@ func replayRules(c *Ctx, which string) {
 			}
 			// latest' by initialisation branch
 			var lat linForm
-			initT := pf.boolCond(func(v ssa.Value) bool { return isFieldLoad(v, d.T, "init") }, true)
-			initF := pf.boolCond(func(v ssa.Value) bool { return isFieldLoad(v, d.T, "init") }, false)
+			initT := pf.boolCond(func(v ssa.Value) bool { return isFieldLoad(v, d.T, d.init) }, true)
+			initF := pf.boolCond(func(v ssa.Value) bool { return isFieldLoad(v, d.T, d.init) }, false)
 			switch {
 			case initT:
 				lat = L
@@ -363,44 +529,50 @@ func replayRules(c *Ctx, which string) {
 
 		// accept closure
 		oa := c.Obl("R1", fname(d.accept), "every path of the accept callback records the accepted number: SetBit at the very distance Check tested (0 after moving the head), the head moves exactly when the number is newer, by exactly the distance; the result is true when the head moved", 2)
-		apaths, ok := enumPaths(d.accept, 100)
+		apaths, ok := enumPathsU(d.accept, 200)
 		if !ok {
 			oa.Undecide("accept closure has a loop")
 			continue
 		}
 		for _, pt := range apaths {
-			last := pt.Blocks[len(pt.Blocks)-1]
-			ret, _ := last.Instrs[len(last.Instrs)-1].(*ssa.Return)
+			ret, _ := pt.Instrs[len(pt.Instrs)-1].(*ssa.Return)
 			if ret == nil {
 				continue
 			}
 			// evaluate with forwarding; record events in order
-			w := newSymWalker(pt)
+			ptc := pt
+			w := newSymWalker(&ptc)
 			var setArgs, lshArgs []linForm
 			var latStore []linForm
 			lshBeforeStore := true
-			for _, b := range pt.Blocks {
-				for _, in := range b.Instrs {
-					if cl, ok := in.(*ssa.Call); ok {
-						switch cl.Call.StaticCallee() {
-						case d.setBit:
-							setArgs = append(setArgs, w.lin(cl.Call.Args[1]))
-						case d.lsh:
-							lshArgs = append(lshArgs, w.lin(cl.Call.Args[1]))
-							if len(latStore) > 0 && !d.wrapped {
-								lshBeforeStore = false
-							}
+			var stack []ssa.Value
+			for idx, in := range pt.Instrs {
+				if cl, ok := in.(*ssa.Call); ok {
+					switch cl.Call.StaticCallee() {
+					case d.setBit:
+						setArgs = append(setArgs, w.lin(cl.Call.Args[1]))
+					case d.lsh:
+						lshArgs = append(lshArgs, w.lin(cl.Call.Args[1]))
+						if len(latStore) > 0 && !d.wrapped {
+							lshBeforeStore = false
 						}
 					}
-					if st, ok := in.(*ssa.Store); ok && isFieldStore(st, d.T, "latestSeq") {
-						// the initialisation store of the wrapping detector is not a head move
-						if d.wrapped && pathInitStore(pt, st) {
-							w.step(in)
-							continue
-						}
-						latStore = append(latStore, w.lin(st.Val))
+				}
+				if st, ok := in.(*ssa.Store); ok && isFieldStore(st, d.T, d.latest) {
+					// the initialisation store of the wrapping detector is not a head move
+					if d.wrapped && pathInitStore(d, st) {
+						w.step(in)
+						continue
 					}
-					w.step(in)
+					latStore = append(latStore, w.lin(st.Val))
+				}
+				w.step(in)
+				if h := helperCallee(in); h != nil && idx+1 < len(pt.Instrs) && pt.Instrs[idx+1].Parent() == h {
+					stack = append(stack, in.(*ssa.Call))
+				}
+				if _, isRet := in.(*ssa.Return); isRet && len(stack) > 0 && idx+1 < len(pt.Instrs) {
+					w.bindReturn(stack[len(stack)-1])
+					stack = stack[:len(stack)-1]
 				}
 			}
 			pf := evalPath(pt)
@@ -434,7 +606,7 @@ func replayRules(c *Ctx, which string) {
 					}
 				}
 			} else {
-				diff := linSym("diff")
+				diff := linSym(d.diff)
 				neg := pf.hasIneq(diff.scale(-1))
 				if moved != neg {
 					oa.Fail(ret.Pos(), "the head moves although the folded distance is not negative (or does not move although it is)")
@@ -471,13 +643,36 @@ func replayRules(c *Ctx, which string) {
 		}
 	}
 
-	// mask: bounds and truncation width
+	// mask: bounds and truncation width (fields of fixedBigInt by type)
+	bigBits, bigN, bigMsb := "", "", ""
+	if bn := p.Named("replaydetector", "fixedBigInt"); bn != nil {
+		if st, ok := bn.Underlying().(*types.Struct); ok {
+			for i := 0; i < st.NumFields(); i++ {
+				f := st.Field(i)
+				switch t := f.Type().Underlying().(type) {
+				case *types.Slice:
+					bigBits = f.Name()
+				case *types.Basic:
+					if t.Kind() == types.Uint {
+						bigN = f.Name()
+					}
+					if t.Kind() == types.Uint64 {
+						bigMsb = f.Name()
+					}
+				}
+			}
+		}
+	}
+	if bigBits == "" || bigN == "" {
+		c.Obl("R0", "replaydetector.fixedBigInt", "anchors of the bit mask are resolved", 1).Undecide("word array / width field of fixedBigInt not resolved")
+		return
+	}
 	ob := c.Obl("R5", "replaydetector.fixedBigInt", "Bit and SetBit ignore positions >= n (guard dominates the word access) and address word i/64, bit i%64", 2)
 	for _, f := range []*ssa.Function{bitF, setF} {
 		n := 0
 		instrsOf(f, func(in ssa.Instruction) {
 			ia, ok := in.(*ssa.IndexAddr)
-			if !ok || !isFieldLoad(ia.X, "replaydetector.fixedBigInt", "bits") {
+			if !ok || !isFieldLoad(ia.X, "replaydetector.fixedBigInt", bigBits) {
 				return
 			}
 			n++
@@ -485,7 +680,7 @@ func replayRules(c *Ctx, which string) {
 			i := f.Params[1]
 			if !hasFact(in, func(ft fact) bool {
 				cm, ok := normCmp(ft.Cond, ft.Val)
-				return ok && cm.Op == token.LSS && cm.X == ssa.Value(i) && isFieldLoad(cm.Y, "replaydetector.fixedBigInt", "n")
+				return ok && cm.Op == token.LSS && cm.X == ssa.Value(i) && isFieldLoad(cm.Y, "replaydetector.fixedBigInt", bigN)
 			}) {
 				ob.Fail(in.Pos(), "%s accesses the word array without the guard i < n", fname(f))
 			}
@@ -498,24 +693,24 @@ func replayRules(c *Ctx, which string) {
 			ob.Fail(f.Pos(), "%s never touches the word array", fname(f))
 		}
 	}
-	maskWidth(c, newBig, lshF)
+	maskWidth(c, newBig, lshF, bigMsb)
 }
 
 // pathInitStore: the store to latestSeq happens on the !init edge (window positioning).
-func pathInitStore(pt cfgPath, st *ssa.Store) bool {
+func pathInitStore(d rdRoles, st *ssa.Store) bool {
 	return hasFact(st, func(ft fact) bool {
-		return boolFact(ft, func(v ssa.Value) bool { fr, ok := asFieldLoad(v); return ok && fr.Field == "init" }, false)
+		return boolFact(ft, func(v ssa.Value) bool { fr, ok := asFieldLoad(v); return ok && fr.Field == d.init }, false)
 	})
 }
 
 // maskWidth: C04.R3 — the mask and-ed into the top word keeps at least the n%64 low bits
 // that belong to the window (all 64 when n%64 == 0).
-func maskWidth(c *Ctx, newBig, lsh *ssa.Function) {
+func maskWidth(c *Ctx, newBig, lsh *ssa.Function, msb string) {
 	o := c.Obl("R3", fname(newBig), "the truncation mask of the top word is a low-bit mask of width >= n%64 for n%64 in [1,63] and of width 64 for n%64 == 0: a shift never clears bits of accepted numbers still inside the window", 1)
 	// does Lsh truncate at all?
 	trunc := false
 	instrsOf(lsh, func(in ssa.Instruction) {
-		if b, ok := in.(*ssa.BinOp); ok && b.Op == token.AND && (isFieldLoad(b.X, "replaydetector.fixedBigInt", "msbMask") || isFieldLoad(b.Y, "replaydetector.fixedBigInt", "msbMask")) {
+		if b, ok := in.(*ssa.BinOp); ok && b.Op == token.AND && msb != "" && (isFieldLoad(b.X, "replaydetector.fixedBigInt", msb) || isFieldLoad(b.Y, "replaydetector.fixedBigInt", msb)) {
 			trunc = true
 		}
 	})
@@ -525,7 +720,7 @@ func maskWidth(c *Ctx, newBig, lsh *ssa.Function) {
 	}
 	var stored ssa.Value
 	instrsOf(newBig, func(in ssa.Instruction) {
-		if st, ok := in.(*ssa.Store); ok && isFieldStore(st, "replaydetector.fixedBigInt", "msbMask") {
+		if st, ok := in.(*ssa.Store); ok && isFieldStore(st, "replaydetector.fixedBigInt", msb) {
 			stored = st.Val
 		}
 	})
